@@ -1,0 +1,71 @@
+//go:build verif
+
+// Verification hooks (build tag "verif"): read-only views of the routing
+// daemon's tables for the deterministic simulator under /verif.
+
+package table
+
+import enc "github.com/named-data/ndnd/std/encoding"
+
+// VerifRibEntry is a copy of one RIB entry with next hops resolved to names.
+type VerifRibEntry struct {
+	Dest     enc.Name
+	Cost1    uint64
+	NextHop1 enc.Name
+	Cost2    uint64
+	NextHop2 enc.Name
+}
+
+// VerifEntries lists every RIB entry (including unreachable ones, if any are kept).
+func (r *Rib) VerifEntries() []VerifRibEntry {
+	out := make([]VerifRibEntry, 0, len(r.entries))
+	for _, e := range r.entries {
+		out = append(out, VerifRibEntry{
+			Dest:     e.name,
+			Cost1:    e.lowest1,
+			NextHop1: r.neighbors[e.nextHop1],
+			Cost2:    e.lowest2,
+			NextHop2: r.neighbors[e.nextHop2],
+		})
+	}
+	return out
+}
+
+// VerifNeighbor is a copy of one neighbour state.
+type VerifNeighbor struct {
+	Name      enc.Name
+	FaceId    uint64
+	AdvertSeq uint64
+	HasAdvert bool
+}
+
+// VerifAll lists the neighbour table.
+func (nt *NeighborTable) VerifAll() []VerifNeighbor {
+	out := make([]VerifNeighbor, 0, len(nt.neighbors))
+	for _, ns := range nt.neighbors {
+		out = append(out, VerifNeighbor{Name: ns.Name, FaceId: ns.faceId, AdvertSeq: ns.AdvertSeq, HasAdvert: ns.Advert != nil})
+	}
+	return out
+}
+
+// VerifPrefixRouter is a copy of what the prefix table knows about one router.
+type VerifPrefixRouter struct {
+	Name     enc.Name
+	Known    uint64
+	Latest   uint64
+	Fetching bool
+	Prefixes []enc.Name
+}
+
+// VerifRouters lists the prefix table.
+func (pt *PrefixTable) VerifRouters() []VerifPrefixRouter {
+	out := make([]VerifPrefixRouter, 0, len(pt.routers))
+	for _, r := range pt.routers {
+		v := VerifPrefixRouter{Name: r.Name, Known: r.Known, Latest: r.Latest, Fetching: r.Fetching}
+		for _, p := range r.Prefixes {
+			v.Prefixes = append(v.Prefixes, p.Name)
+		}
+		out = append(out, v)
+	}
+	return out
+}
